@@ -45,6 +45,7 @@ None == 0
 NoT == 0 - 9           \* "no deadline"
 Min2(a, b) == IF a < b THEN a ELSE b
 Abs(a) == IF a < 0 THEN 0 - a ELSE a
+CancelBound == 250     \* ms, fault-free runs with 1 ms links
 
 Init ==
   /\ l = 1 /\ now = 0 /\ ncfg = Empty /\ calls = Empty /\ started = Empty /\ ended = Empty
@@ -130,6 +131,8 @@ TrAppStart ==
      /\ Cur.direction_seen = "Direction::Inbound"
      /\ Cur.route = c.route /\ Cur.len = c.len /\ Cur.digest = c.digest /\ Cur.hdigest = c.hdigest
      /\ ReqFits(c)                                         \* an oversized request is never delivered
+     (* C12: a call the caller abandoned long ago is not handed to a handler any more *)
+     /\ (Cur.nonce \in DOMAIN abandoned /\ ~faulty) => Cur.t <= abandoned[Cur.nonce] + CancelBound
      /\ pendIn = Chosen(Def(c.to, "inDef"), HdrVal(c))
      /\ started' = With(started, Cur.nonce, [t |-> Cur.t, inT |-> pendIn])
   /\ pendIn' = NoT
@@ -173,6 +176,9 @@ TrResult ==
          c == calls[q]
      IN
      /\ Get(Cur, "err", "-") # "HANG"                                  \* never a hang
+     (* every RPC made through a network passes the outbound timeout layer (C11: the configured *)
+     (* defaults take effect on every RPC)                                                       *)
+     /\ c.outT # -2 \/ Get(Cur, "notconn", FALSE)
      /\ Get(Cur, "must_succeed", FALSE) => Cur.ok
      /\ IF Cur.ok
         THEN /\ ReqFits(c)
@@ -226,7 +232,6 @@ Spec == Init /\ [][Next]_vars
 -----------------------------------------------------------------------------
 (* C12 PromptCancel: an abandoned call's handler, if it started, is dropped  *)
 (* (or had already finished) within a round trip                             *)
-CancelBound == 250     \* ms, fault-free runs with 1 ms links
 Late == {q \in DOMAIN abandoned :
            /\ q \in DOMAIN started /\ q \notin DOMAIN ended /\ q \notin DOMAIN gone
            /\ ~faulty /\ now > abandoned[q] + CancelBound}
